@@ -109,11 +109,56 @@ class Hub:
                 return StockSnap(x)
             if type(x).__name__ == "DataFrame" and x.size <= 200000:
                 return FrameSnap(x)
+            if isinstance(x, fd.MFASystem):
+                return SystemSnap(x)
+            if type(x).__name__ in ("PlotlySankeyPlotter", "PlotlyArrayPlotter", "PyplotArrayPlotter"):
+                return PlotterSnap(self, x)
             if isinstance(x, (list, tuple)) and 0 < len(x) <= 64 and all(isinstance(e, fd.FlodymArray) for e in x):
                 return [Snap(e) for e in x]
         except Exception:
             return None
         return None
+
+
+class PlotterSnap:
+    """what a plotter was given: the system or the array (the x array may legitimately be replaced by its cast)"""
+
+    __slots__ = ("mfa", "array")
+
+    def __init__(self, hub, p):
+        d = p.__dict__
+        self.mfa = SystemSnap(d["mfa"]) if d.get("mfa") is not None else None
+        self.array = Snap(d["array"]) if d.get("array") is not None else None
+
+    def same_as(self, p):
+        d = p.__dict__
+        if self.mfa is not None and not self.mfa.same_as(d.get("mfa")):
+            return False
+        if self.array is not None and not Snap(d.get("array")).same(self.array):
+            return False
+        return True
+
+
+class SystemSnap:
+    """deep snapshot of an MFASystem: dims, every flow, parameter and stock array"""
+
+    __slots__ = ("dims", "flows", "parameters", "stocks", "processes")
+
+    def __init__(self, m):
+        self.dims = DSnap(m.dims)
+        self.flows = {n: Snap(f) for n, f in m.flows.items()}
+        self.parameters = {n: Snap(p) for n, p in m.parameters.items()}
+        self.stocks = {n: StockSnap(st) for n, st in (m.stocks or {}).items()}
+        self.processes = [(p.name, p.id) for p in m.processes.values()]
+
+    def same_as(self, m):
+        try:
+            o = SystemSnap(m)
+        except Exception:
+            return False
+        return (self.dims.same(o.dims) and self.processes == o.processes and self.flows.keys() == o.flows.keys() and all(self.flows[n].same(o.flows[n]) for n in self.flows)
+                and self.parameters.keys() == o.parameters.keys() and all(self.parameters[n].same(o.parameters[n]) for n in self.parameters)
+                and self.stocks.keys() == o.stocks.keys() and all(self.stocks[n].same(o.stocks[n]) for n in self.stocks))
 
 
 class FrameSnap:
@@ -295,3 +340,42 @@ def install(hub: Hub):
     wrap_function("flodym.flodym_array_helper", "flodym_array_stack")
     hub.installed = True
     return fd
+
+
+def install_export_hooks(hub: Hub):
+    """wrap the export functions and plotters (imports plotly / matplotlib, so only the checks that need them call this)"""
+    import importlib
+
+    rec = hub.rec
+    if getattr(hub, "_export_hooks", False):
+        return
+    hub._export_hooks = True
+    ex = importlib.import_module("flodym.export")
+    dw = importlib.import_module("flodym.export.data_writer")
+    for name in ("convert_to_dict", "export_mfa_to_pickle", "export_mfa_flows_to_csv", "export_mfa_stocks_to_csv"):
+        try:
+            orig = getattr(dw, name)
+            w = _make_wrapper(hub, name, orig)
+            for m in (dw, ex):
+                if getattr(m, name, None) is orig:
+                    setattr(m, name, w)
+            rec.hooks_attached.append(name)
+        except Exception as e:
+            rec.hooks_missing.append(f"{name} ({type(e).__name__})")
+    for modname, clsname in (("flodym.export.sankey", "PlotlySankeyPlotter"), ("flodym.export.array_plotter", "PlotlyArrayPlotter"), ("flodym.export.array_plotter", "PyplotArrayPlotter")):
+        try:
+            cls = getattr(importlib.import_module(modname), clsname)
+            raw = None
+            for k in cls.__mro__:
+                if "plot" in k.__dict__:
+                    raw = k.__dict__["plot"]
+                    break
+            setattr(cls, "plot", _make_wrapper(hub, f"{clsname}.plot", raw))
+            for init_owner in (cls,):
+                for k in init_owner.__mro__:
+                    if "__init__" in k.__dict__:
+                        setattr(cls, "__init__", _make_wrapper(hub, f"{clsname}.__init__", k.__dict__["__init__"], skip_self_snapshot=True))
+                        break
+            rec.hooks_attached.append(f"{clsname}.plot")
+        except Exception as e:
+            rec.hooks_missing.append(f"{clsname}.plot ({type(e).__name__})")
